@@ -16,6 +16,7 @@ import (
 	"strconv"
 	"strings"
 	"testing"
+	"text/template/parse"
 	"time"
 )
 
@@ -81,6 +82,7 @@ func Uint64(name string, idx ...int) uint64 {
 	return i
 }
 func Uint8(name string, idx ...int) uint8 { return uint8(Uint64(name, idx...)) }
+
 // fuzzFloats: when set, float inputs are re-drawn at random (see RunReplay)
 var fuzzFloats *rand.Rand
 
@@ -91,7 +93,11 @@ func Float64(name string, idx ...int) float64 {
 			return f
 		}
 		var f float64
-		switch fuzzFloats.Intn(4) {
+		switch fuzzFloats.Intn(6) {
+		case 4: // log-uniform magnitudes: abstractions over density / scale parameters need large operands to matter
+			f = math.Pow(10, fuzzFloats.Float64()*15)
+		case 5:
+			f = math.Pow(10, fuzzFloats.Float64()*18)
 		case 0:
 			f = float64(fuzzFloats.Intn(64)) / 8
 		case 1:
@@ -160,9 +166,9 @@ func Concretize(x, lo, hi int) int { return x }
 // Thorough reports whether the thorough tier is running (harnesses use it to pick larger bounds).
 func Thorough() bool { return os.Getenv("VERIF_TIER") == "thorough" }
 
-func Unroll(n int)            {}
-func Note(s string)           {}
-func Config(key, val string)  {}
+func Unroll(n int)                 {}
+func Note(s string)                {}
+func Config(key, val string)       {}
 func Observe(name string, v int64) {}
 
 // Ghost logs are kept by the engine's stubs (atomic operations, display calls ...); natively they are empty.
@@ -176,10 +182,14 @@ func GhostRecLen(name string, i int) int    { return 0 }
 
 // SetClosureInt / GetClosureInt give harnesses access to a variable captured by a closure (engine only):
 // used to start an inductive step from an arbitrary closure state. Natively unavailable.
-func SetClosureInt(f interface{}, name string, v int)       { panic("zzverif: closure state is engine-only") }
-func GetClosureInt(f interface{}, name string) int           { panic("zzverif: closure state is engine-only") }
-func SetClosureFloat(f interface{}, name string, v float64) { panic("zzverif: closure state is engine-only") }
-func GetClosureFloat(f interface{}, name string) float64     { panic("zzverif: closure state is engine-only") }
+func SetClosureInt(f interface{}, name string, v int) { panic("zzverif: closure state is engine-only") }
+func GetClosureInt(f interface{}, name string) int    { panic("zzverif: closure state is engine-only") }
+func SetClosureFloat(f interface{}, name string, v float64) {
+	panic("zzverif: closure state is engine-only")
+}
+func GetClosureFloat(f interface{}, name string) float64 {
+	panic("zzverif: closure state is engine-only")
+}
 
 // Exact real arithmetic for oracles (engine, relaxed-real mode: no rounding is applied; natively: float64).
 func RAdd(a, b float64) float64 { return a + b }
@@ -204,13 +214,13 @@ func FieldLen(p interface{}, name string) int {
 }
 
 // ClockLogLen / ClockAt: the engine's log of every reading of the stubbed clocks on the current path (engine only).
-func ClockLogLen() int     { return 0 }
+func ClockLogLen() int    { return 0 }
 func ClockAt(i int) int64 { return 0 }
 
 // Ghost events for ordering obligations in concurrent harnesses (engine only).
-func Event(name string, idx ...int)           {}
-func Before(a, b string, ia, ib int) bool     { return true }
-func Happened(name string, idx ...int) bool   { return true }
+func Event(name string, idx ...int)         {}
+func Before(a, b string, ia, ib int) bool   { return true }
+func Happened(name string, idx ...int) bool { return true }
 
 // ThreadID is the index of the current model thread (0 = harness main; spawn order). Engine only.
 func ThreadID() int { return 0 }
@@ -270,7 +280,7 @@ func RunReplay(t *testing.T, path string, fn func()) {
 		// the counterexample came from an abstraction of float arithmetic (uninterpreted / relaxed): keep its
 		// integer, boolean and string inputs and re-draw the float inputs until a concrete instance fails
 		fuzzFloats = rand.New(rand.NewSource(1))
-		for i := 0; i < 400 && !reproduced(); i++ {
+		for i := 0; i < 3000 && !reproduced(); i++ {
 			fuzzed = map[string]float64{}
 			runOnce()
 		}
@@ -295,4 +305,143 @@ func RunReplay(t *testing.T, path string, fn func()) {
 	default:
 		fmt.Printf("VERIF-REPLAY: not-reproduced %s (failed=%v panic=%v)\n", model.Obligation, failedIDs, escaped)
 	}
+}
+
+// ---- template structure (native twin of engine/tmpl.go) ----
+
+type tmplUse struct {
+	kind   string // "field" (an action rendering something) or "text"
+	field  string // first field argument of the action's pipeline ("" if none)
+	fn     string // first identifier (function) of the pipeline ("" if none)
+	args   []string
+	guards []string // enclosing conditions: "+Field" (if-branch), "-Field" (else-branch), "?..." (anything else)
+	text   string
+}
+
+var tmplCache = map[string][]tmplUse{}
+
+func tmplAnalyse(src string) []tmplUse {
+	if u, ok := tmplCache[src]; ok {
+		return u
+	}
+	t := parse.New("t")
+	t.Mode = parse.SkipFuncCheck
+	tree, err := t.Parse(src, "", "", map[string]*parse.Tree{})
+	var out []tmplUse
+	if err != nil {
+		out = []tmplUse{{kind: "error", text: err.Error()}}
+		tmplCache[src] = out
+		return out
+	}
+	var walk func(n parse.Node, guards []string)
+	pipeInfo := func(p *parse.PipeNode) (field, fn string, args []string) {
+		if p == nil {
+			return
+		}
+		for _, c := range p.Cmds {
+			for _, a := range c.Args {
+				switch x := a.(type) {
+				case *parse.FieldNode:
+					name := strings.Join(x.Ident, ".")
+					if field == "" {
+						field = name
+					}
+					args = append(args, name)
+				case *parse.IdentifierNode:
+					if fn == "" {
+						fn = x.Ident
+					}
+				}
+			}
+		}
+		return
+	}
+	cond := func(p *parse.PipeNode) string {
+		if p != nil && len(p.Cmds) == 1 && len(p.Cmds[0].Args) == 1 {
+			if f, ok := p.Cmds[0].Args[0].(*parse.FieldNode); ok {
+				return strings.Join(f.Ident, ".")
+			}
+		}
+		return ""
+	}
+	walk = func(n parse.Node, guards []string) {
+		switch x := n.(type) {
+		case *parse.ListNode:
+			if x == nil {
+				return
+			}
+			for _, c := range x.Nodes {
+				walk(c, guards)
+			}
+		case *parse.TextNode:
+			out = append(out, tmplUse{kind: "text", text: string(x.Text), guards: append([]string(nil), guards...)})
+		case *parse.ActionNode:
+			f, fn, args := pipeInfo(x.Pipe)
+			out = append(out, tmplUse{kind: "field", field: f, fn: fn, args: args, guards: append([]string(nil), guards...)})
+		case *parse.IfNode:
+			c := cond(x.Pipe)
+			if c == "" {
+				c = "?complex"
+				walk(x.List, append(append([]string(nil), guards...), c))
+				walk(x.ElseList, append(append([]string(nil), guards...), c))
+				return
+			}
+			walk(x.List, append(append([]string(nil), guards...), "+"+c))
+			if x.ElseList != nil {
+				walk(x.ElseList, append(append([]string(nil), guards...), "-"+c))
+			}
+		case *parse.RangeNode:
+			walk(x.List, append(append([]string(nil), guards...), "?range"))
+			walk(x.ElseList, append(append([]string(nil), guards...), "?range"))
+		case *parse.WithNode:
+			walk(x.List, append(append([]string(nil), guards...), "?with"))
+			walk(x.ElseList, append(append([]string(nil), guards...), "?with"))
+		}
+	}
+	walk(tree.Root, nil)
+	tmplCache[src] = out
+	return out
+}
+
+func TmplInt(src, what string, i int) int {
+	u := tmplAnalyse(src)
+	if what == "n" {
+		return len(u)
+	}
+	if i < 0 || i >= len(u) {
+		return 0
+	}
+	switch what {
+	case "nargs":
+		return len(u[i].args)
+	case "nguards":
+		return len(u[i].guards)
+	}
+	return 0
+}
+
+func TmplStr(src, what string, i, k int) string {
+	u := tmplAnalyse(src)
+	if i < 0 || i >= len(u) {
+		return ""
+	}
+	switch what {
+	case "kind":
+		return u[i].kind
+	case "field":
+		return u[i].field
+	case "func":
+		return u[i].fn
+	case "text":
+		return u[i].text
+	case "arg":
+		if k >= 0 && k < len(u[i].args) {
+			return u[i].args[k]
+		}
+	case "guard":
+		if k >= 0 && k < len(u[i].guards) {
+			return u[i].guards[k]
+		}
+	}
+	return ""
 }
